@@ -18,8 +18,8 @@ Definition sx_of_pyrun (r : pyrun) : sx :=
   match r with
   | RUsageError => L [A $"error"]
   | RInfo => L [A $"info"]
-  | RCommand i c => L [A $"command"; sx_of_nat i; A c]
-  | RModule i m => L [A $"module"; sx_of_nat i; A m]
+  | RCommand i c fl => L (A $"command" :: sx_of_nat i :: A c :: sx_of_fl fl)
+  | RModule i m fl => L (A $"module" :: sx_of_nat i :: A m :: sx_of_fl fl)
   | RFile i fl => L (A $"file" :: sx_of_nat i :: sx_of_fl fl)
   | RStdin fl => L (A $"stdin" :: sx_of_fl fl)
   end.
